@@ -434,7 +434,7 @@ def make_async_handler(rec, hdef, bus):
                 elif k == 'y':
                     for _ in range(op[1] if len(op) > 1 else 1):
                         await asyncio.sleep(0)
-                    rec.log('HOp', act=act, op='y')
+                        rec.log('HOp', act=act, op='y')
                 elif k == 's':
                     await _sleep(rec, op[1])
                     rec.log('HOp', act=act, op='s')
